@@ -1,8 +1,13 @@
 """C19: every RPC completes exactly once with the response that carries its own id.
-proof (Properties_C19.v over C19_Model.v, all histories / all schedules) + correspondence of the
-extracted model with the real muduo::net::RpcChannel / RpcServer::onConnection bound to a real
-TcpConnection whose peer is a scripted raw socket (ASan/UBSan, asserts on) + the property text as a
-Python oracle on the implementation's own trace."""
+proof (Properties_C19.v over C19_Model.v, all histories / all schedules) + facts regenerated from the
+clang AST of RpcChannel.cc / Atomic.h / rpc.proto (lib/gen_C19.py -> coq/Gen_C19.v, link lemmas in
+coq/C19_GenLink.v) + correspondence of the extracted model with the real muduo::net::RpcChannel /
+RpcServer::onConnection bound to a real TcpConnection whose peer is a scripted raw socket (ASan/UBSan,
+asserts on; helper threads parked at every micro-step boundary of CallMethod, including between two
+atomic accesses to id_) + the property text as a Python oracle on the implementation's own trace.
+A CallMethod with response == NULL is outside the contract of google::protobuf::RpcChannel::CallMethod:
+model and driver reject it; it is only made in `obs=1` cases, where what the code does is compared with
+C19_Model.step_code and counted as an observation, never reported."""
 import os, re, sys, glob, itertools, time
 import vlib
 
